@@ -276,11 +276,68 @@ def denoteDoc (lay : Layout) (doc : Doc) : Option Denotation :=
              hits := shits.map (fun h => ⟨h.col, h.sample, T h.snap⟩),
              holds := sholds.map (fun h => ⟨h.col, h.sample, T h.head, T h.tail - T h.head⟩) }
 
+
+/-! ### the header record by the book (independent of `readHeader`'s loops) -/
+
+/-- `#BPMxx`: the letters BPM (either case) followed by exactly two characters — the id -/
+def exbpmId (k : Bytes) : Option Bytes :=
+  match k with
+  | [b, p, m, x, y] => if upper b = 'B' ∧ upper p = 'P' ∧ upper m = 'M' then some [x, y] else none
+  | _ => none
+
+/-- `#WAVxx` likewise -/
+def wavId (k : Bytes) : Option Bytes :=
+  match k with
+  | [w, a, v, x, y] => if upper w = 'W' ∧ upper a = 'A' ∧ upper v = 'V' then some [x, y] else none
+  | _ => none
+
+/-- a name that begins with WAV (either case) -/
+def wavLike (k : Bytes) : Bool :=
+  match k with
+  | w :: a :: v :: _ => decide (upper w = 'W') && decide (upper a = 'A') && decide (upper v = 'V')
+  | _ => false
+
+/-- The header record of a header table: `#TITLE`, `#ARTIST`, `#PLAYLEVEL`, `#LNOBJ` (empty when absent), the
+`#BPMxx` and `#WAVxx` tables keyed by id (an id defined twice — also through another spelling of BPM/WAV — keeps
+its first place and has its last value), the `#BPM` tempo, and every other header in table order.  Silent: no
+`#BPM`, a tempo that is not a decimal number, a `#WAV…` name that is not `#WAVxx` (the reader files it under its
+last two characters: dialect). -/
+def bookHeader (tbl : Dict Bytes) : Option Header :=
+  if tbl.any (fun kv => wavLike kv.1 && (wavId kv.1).isNone) then none else
+  match allSome ((tbl.filterMap (fun kv => (exbpmId kv.1).map (fun id => (id, kv.2)))).map
+      (fun p => (parseFloat p.2).map (fun v => (p.1, v)))) with
+  | none => none
+  | some ex =>
+    match (dictGet? tbl "BPM".toList).bind parseFloat with
+    | none => none
+    | some bpm0 =>
+      some { title := (dictGet? tbl "TITLE".toList).getD [],
+             artist := (dictGet? tbl "ARTIST".toList).getD [],
+             version := (dictGet? tbl "PLAYLEVEL".toList).getD [],
+             lnEnd := (dictGet? tbl "LNOBJ".toList).getD [],
+             exbpms := bookTable ex,
+             samples := bookTable (tbl.filterMap (fun kv => (wavId kv.1).map (fun id => (id, kv.2)))),
+             bpm0 := bpm0,
+             misc := tbl.filter (fun kv => (exbpmId kv.1).isNone && (wavId kv.1).isNone && decide (kv.1 ≠ "BPM".toList)) }
+
+/-- the meaning of a lexed text, header record by the book -/
+def denoteDocBook (lay : Layout) (doc : Doc) : Option Denotation :=
+  match bookHeader doc.header with
+  | none => none
+  | some hdr =>
+    match denoteBody lay doc hdr with
+    | none => none
+    | some (cs, shits, sholds) =>
+      let T := timeAt 0 cs
+      some { header := hdr, tempo := cs, shits := shits, sholds := sholds,
+             hits := shits.map (fun h => ⟨h.col, h.sample, T h.snap⟩),
+             holds := sholds.map (fun h => ⟨h.col, h.sample, T h.head, T h.tail - T h.head⟩) }
+
 /-- **BMS by the book, text to meaning, with the specification's own lexer** -/
 def denoteText (lay : Layout) (lines : List Bytes) : Option Denotation :=
   match bookDoc lines with
   | none => none
-  | some doc => denoteDoc lay doc
+  | some doc => denoteDocBook lay doc
 
 /-- `read_file`: the file's bytes split into lines at LF, CRLF or a bare CR (what a text-mode line reader does);
 a trailing line end does not start another line -/
